@@ -6,6 +6,7 @@ import (
 	"go/token"
 	"go/types"
 	"math"
+	"regexp"
 	"sort"
 	"strings"
 
@@ -218,7 +219,7 @@ func (c *Ctx) isExceptional(v ssa.Value, name string) bool {
 // returnsExceptional lists the blocks of fn that return the given exceptional value as error.
 func (c *Ctx) returnsExceptional(fn *ssa.Function, name string) []*ssa.BasicBlock {
 	var out []*ssa.BasicBlock
-	for _, b := range fn.Blocks {
+	for _, b := range blocksOf(fn) {
 		ret, ok := b.Instrs[len(b.Instrs)-1].(*ssa.Return)
 		if !ok {
 			continue
@@ -325,7 +326,7 @@ func ruleOverflowGuard(c *Ctx, r *Report) {
 			blk := in.Block()
 			guarded := false
 			how := ""
-			for _, d := range fn.Blocks {
+			for _, d := range blocksOf(fn) {
 				cond := ifCond(d)
 				if cond == nil {
 					continue
@@ -366,7 +367,7 @@ func ruleOverflowGuard(c *Ctx, r *Report) {
 			// carries it must be dominated by a test of the product itself or of a quotient of the operands
 			if guarded && opname == "*" {
 				strong := false
-				for _, d := range fn.Blocks {
+				for _, d := range blocksOf(fn) {
 					cond := ifCond(d)
 					if cond == nil {
 						continue
@@ -688,7 +689,7 @@ func (c *Ctx) symEval(v ssa.Value, env map[ssa.Value]*sym, depth int) *sym {
 		}
 		// inline single-result, straight-line library helpers (comparison chains, floatItoF); primitives
 		// returning (value, error) stay symbolic calls.
-		if depth > 0 && c.isLibPkg(funcPkg(callee)) && len(callee.Blocks) == 1 && callee.Signature.Results().Len() == 1 {
+		if depth > 0 && c.isLibPkg(funcPkg(callee)) && len(blocksOf(callee)) == 1 && callee.Signature.Results().Len() == 1 {
 			ret, ok := callee.Blocks[0].Instrs[len(callee.Blocks[0].Instrs)-1].(*ssa.Return)
 			if ok && len(ret.Results) == 1 {
 				env2 := map[ssa.Value]*sym{}
@@ -704,7 +705,7 @@ func (c *Ctx) symEval(v ssa.Value, env map[ssa.Value]*sym, depth int) *sym {
 }
 
 func (c *Ctx) helperSym(fn *ssa.Function) *sym {
-	if len(fn.Blocks) != 1 {
+	if len(blocksOf(fn)) != 1 {
 		return &sym{kind: "unknown"}
 	}
 	ret, ok := fn.Blocks[0].Instrs[len(fn.Blocks[0].Instrs)-1].(*ssa.Return)
@@ -922,7 +923,7 @@ func (c *Ctx) arithDispatchers() []*ssa.Function {
 // from the wrapping edge, or is listed with its reason.
 
 var intWrapExempt = map[string]string{
-	"engine.Length$1/n-Resolve()": "both operands are non-negative (the length argument was domain-checked, skipped is a count of list cells)",
+	"engine.Length$/n-Resolve()": "both operands are non-negative (the length argument was domain-checked, skipped is a count of list cells)",
 }
 
 // userInteger: v is an Integer that comes straight from the user's term (a parameter of type Integer, or a
@@ -986,7 +987,7 @@ func ruleIntWrap(c *Ctx, r *Report) {
 			n++
 			key := fmt.Sprintf("%s/%s%s%s", fname(fn), valName(bo.X), bo.Op, valName(bo.Y))
 			desc := "Integer arithmetic on a user-supplied value outside the checked primitives cannot wrap"
-			if why, ok := intWrapExempt[fmt.Sprintf("%s/%s%s%s", fname(fn), valName(bo.X), bo.Op, valName(bo.Y))]; ok {
+			if why, ok := intWrapExempt[stripOrdinals(fmt.Sprintf("%s/%s%s%s", fname(fn), valName(bo.X), bo.Op, valName(bo.Y)))]; ok {
 				r.ok(rule, key, c.at(bo), desc, "listed: "+why, true)
 				return
 			}
@@ -2009,3 +2010,11 @@ func ruleArithNoRecursion(c *Ctx, r *Report) {
 	}
 	r.analysed(rule, fmt.Sprintf("%d numeric functions, %d call edges among them", len(fns), len(site)))
 }
+
+// stripOrdinals: closure ordinals ($1, $2$1) depend on how many closures stand before one in its function; allow-list
+// keys name the enclosing function and the construct only.
+func stripOrdinals(key string) string {
+	return closureOrdinal.ReplaceAllString(key, "$$")
+}
+
+var closureOrdinal = regexp.MustCompile(`(\$\d+)+`)
